@@ -20,7 +20,7 @@ def gen_cfg(rng, i, quick):
     n = rng.choice([16, 17, 20, 24, 25, 32]) if quick else rng.randint(16, 48)
     steps = rng.choice([8, 10, 16, 20, 25, 40])
     rot = rng.choice(["0.5", "1", "1.5", "0.75", "2", "1.25", "0.3", "0.1", "2.5"])
-    last = int(math.ceil(steps * hc.f32(float(rot))))
+    last = int(math.ceil(float(steps) * float(rot) * (1.0 - 1e-12)))
     outstep = rng.choice([0, 1, 1, 2, 3, 5, 7, max(last, 1), last + 3, rng.randint(1, max(1, last))])
     save = rng.choice([0, 1, 1, 2, 3, 5])
     k = rng.random()
@@ -389,7 +389,7 @@ def model_text(c, d):
     stop = c.laststep()
     t = "sched %s.sched %s %s %d %s\n" % (c.cid, hc.zt(c.outstep), hc.zt(c.save), 1 if c.has_wake() else 0, hc.zt(stop))
     t += "dims %s.dims %s %s %s %s %s\n" % (c.cid, hc.zt(nb), hc.zt(n), hc.zt(nmax), hc.zt(imp), hc.zt(np_))
-    t += "laststep %s.last %s %s\n" % (c.cid, qtok(Fraction(c.steps)), qtok(Fraction(hc.f32(float(c.rot)))))
+    t += "laststep %s.last %s %s\n" % (c.cid, qtok(Fraction(c.steps)), qtok(Fraction(float(c.rot))))
     t += "axis %s.axz %s %s %s\n" % (c.cid, hc.zt(n), qtok(Fraction(12)), qtok(Fraction(hc.f32(c.shiftx))))
     t += "axis %s.axe %s %s %s\n" % (c.cid, hc.zt(n), qtok(Fraction(12)), qtok(Fraction(hc.f32(c.shifty))))
     return t
